@@ -283,8 +283,15 @@ SPECIAL = [
 ]
 
 
+# put texts with characters str.splitlines() takes for line ends but Python (and pfst's own line splitting) does not: form feed
+# as blank space between tokens; VT, FS/GS/RS, NEL, LS, PS inside comments (the put text's line count and last-line length decide
+# every later position)
+EXOTIC = [' \x0c ', '\x0c', ' \\\n \x0c', ' # a\u2028b\n ', '  # \x85 é\n', ' # \x1d\x1e\x1c\n  ', '\n # \u2029\n # \x0b \x0c\n ', ' # c\x0cd\n']
+
+
 def _gap_case(arg):
-    src, seed, per = arg
+    src, seed, per = arg[:3]
+    forced = arg[3] if len(arg) > 3 else None
     rng = random.Random(seed)
     out = []
     gs = gaps(src)
@@ -297,10 +304,16 @@ def _gap_case(arg):
     lines0 = src.split('\n')
     rng.shuffle(gs)
     gs.sort(key=lambda g: not g[5])          # f-string field gaps first (rare), then the shuffled rest
-    for (ln, col, end_ln, end_col, depth, in_f) in gs[:per]:
+    for gi, (ln, col, end_ln, end_col, depth, in_f) in enumerate(gs[:per]):
         old = '\n'.join(lines0[ln:end_ln + 1])
         oldtxt = lines0[ln][col:end_col] if ln == end_ln else None
         new = rng.choice([' ', '  ', '']) if in_f else _replacements(rng, depth, (ln, col) != (end_ln, end_col))
+        if forced:
+            if in_f:
+                continue
+            new = forced[(gi + seed) % len(forced)]
+            if '\n' in new and not new.startswith(' \\\n') and depth == 0:
+                new = forced[(gi + seed) % 3]
         # predicted text (spec of the splice, plain Python)
         pre = '\n'.join(lines0[:ln] + [lines0[ln][:col]])
         post = '\n'.join([lines0[end_ln][end_col:]] + lines0[end_ln + 1:])
@@ -477,6 +490,8 @@ def sweep(ctx):
     jobs = [(p, ctx.rng.randrange(1 << 30), 14 if q else 40) for p in progs]
     for rep in range(2 if q else 8):          # every gap of every special source, with different replacements / spellings
         jobs += [(p, 7919 * rep + i, 10 ** 6) for i, p in enumerate(SPECIAL + corpus.hard_snippets())]
+    for rep in range(len(EXOTIC)):            # every gap of the special sources with every exotic put text
+        jobs += [(p, rep, 10 ** 6, EXOTIC) for p in SPECIAL[:12] + SPECIAL[-3:]]
     res = pmap(_gap_case, jobs)
     items = [it for lst in res for it in lst]
     ctx.tally('spelling', 'x')
